@@ -25,8 +25,14 @@ def run(ctx: core.Ctx):
         da_t = xr.DataArray(vals, dims=("time", "y", "x"), coords={"time": times})
         lev = np.arange(size) * 5 + 3
         da_l = xr.DataArray(vals, dims=("lev", "y", "x"), coords={"lev": lev})
-        for dim, da, labels in (("time", da_t, list(times)), ("lev", da_l, list(lev))):
-            if dim == "lev" and ctx.quick and size > 5:
+        dep = np.arange(size) - (size // 2)            # labels ..., -1, 0, 1, ...: a label equal to 0 is a label like any other
+        da_d = xr.DataArray(vals, dims=("depth", "y", "x"), coords={"depth": dep})
+        ep = pd.date_range("1970-01-01", periods=size, freq="10D")       # axis starting at the epoch
+        da_e = xr.DataArray(vals, dims=("time", "y", "x"), coords={"time": ep})
+        for dim, da, labels in (("time", da_t, list(times)), ("lev", da_l, list(lev)), ("depth", da_d, [int(v) for v in dep]), ("time", da_e, list(ep))):
+            if dim in ("lev", "depth") and ctx.quick and size > 5:
+                continue
+            if dim == "time" and da is da_e and (ctx.quick and size > 4):
                 continue
             for n in range(1, size + 2):
                 for bi in [None] + list(range(size)):
